@@ -29,7 +29,10 @@ LEVEL_TEXT = ("Lean (exact arithmetic): q == q is True in every canonical state 
               "(hash_same_unit). Per run the kernel evaluates, on the regenerated graph, the hash-contract counterexample "
               "1 ft == 12 in with different keys (known finding) and symmetry/mirror/trichotomy of the model's operators across "
               "units on family pairs. Across different units the laws hold relative to the conversion (C04). Tied to the code by "
-              "differential execution in both argument orders and an exact-SI oracle incl. sorted().")
+              "differential execution in both argument orders and an exact-SI oracle incl. sorted(). For quantities in DIFFERENT units and prefixes whose comparison needs no conversion or a directly settled one, "
+              "the model of the real __eq__/__lt__ is proved to decide by SI value in every reachable state (eq_decides_by_value, "
+              "lt_decides_by_value), hence == is an equivalence there and exactly one of a<b, a==b, b<a holds "
+              "(coherent_of_values).")
 LEVEL_NOTE = ("Known finding C12-hash: hash(q) hashes (magnitude, unit object), so equal quantities in different units hash "
               "differently; repairing it needs conversions inside __hash__. Cross-unit laws inherit C04's partiality.")
 TECHNIQUE = "Lean 4 proofs (order/equality laws on magnitudes and SI values, dispatch symmetry, interval overlap) + kernel-evaluated cases on regenerated data + differential correspondence + exact oracle"
@@ -40,8 +43,9 @@ THEOREMS = [
     "Measured.C12.qty_meas_eq_symm", "Measured.C12.qty_level_eq_dispatch", "Measured.C12.hash_same_unit",
     "Measured.C06.same_unit_order",
     "Measured.Obligations.hash_contract_fails", "Measured.Obligations.family_comparisons_coherent",
+    "Measured.C12.eq_decides_by_value", "Measured.C12.lt_decides_by_value", "Measured.C12.coherent_of_values",
 ]
-LEAN_TARGETS = ["Props.C12", "Obligations.C12"]
+LEAN_TARGETS = ["Props.C12", "Props.C12Direct", "Obligations.C12"]
 QUICK = {"chunks": 4, "ops": 1500}
 THOROUGH = {"chunks": 16, "ops": 8000}
 RTOL = 1e-11
